@@ -643,7 +643,7 @@ inline BatchResult runBatch(const Options& opt, uint64_t nRuns, const RunFn& fn,
                         k.nextRun += (uint64_t)W;
                     }
                     bool capped = deadline > 0 && wallNow() > deadline;
-                    if (k.nextRun < nRuns && !capped && R.crashes.size() < 200) {
+                    if (k.nextRun < nRuns && !capped && R.crashes.size() < 60) {
                         k.done = false;
                         spawn(idx[q]);
                         continue;
